@@ -211,6 +211,8 @@ var schedFamilies = []schedFamily{
 	{"rec", []reflect.Type{reflect.TypeOf(Rec{}), reflect.TypeOf([]Rec{})}},
 	{"nested", []reflect.Type{reflect.TypeOf(Outer{}), reflect.TypeOf(Inner{})}},
 	{"recmap", []reflect.Type{reflect.TypeOf(RecMap{}), reflect.TypeOf(&RecMap{})}},
+	// one codec, several goroutines decoding different values at once (scratch keys, pools)
+	{"protomap", []reflect.Type{reflect.TypeOf(ProtoMapHolder{})}},
 }
 
 // workerFor: first use of a type on a fresh instance: build the codec, marshal a
@@ -324,7 +326,7 @@ func execSched(s *Sexp) string {
 		p.RegisterDefaultCodecs()
 		var ws []func() string
 		for i := 0; i < nthreads; i++ {
-			ws = append(ws, workerFor(p, f.types[i%len(f.types)], seed+uint64(i%len(f.types))))
+			ws = append(ws, workerFor(p, f.types[i%len(f.types)], seed+uint64(i)))
 		}
 		return p, ws
 	}
@@ -420,8 +422,22 @@ func execInternSched(s *Sexp) string {
 		})
 	}
 	prev := map[string]string{}
+	var published []map[string]string // every table seen published, with its size at that time
+	var publishedLen []int
 	stepInvariant = func() string {
 		tbl := ic.VerifTable()
+		for i, old := range published {
+			if len(old) != publishedLen[i] {
+				return fmt.Sprintf("a published intern table was mutated in place (%d -> %d entries)", publishedLen[i], len(old))
+			}
+		}
+		if tbl != nil && (len(published) == 0 || len(tbl) != publishedLen[len(published)-1] || len(published) < 4) {
+			published = append(published, tbl)
+			publishedLen = append(publishedLen, len(tbl))
+			if len(published) > 64 {
+				published, publishedLen = published[1:], publishedLen[1:]
+			}
+		}
 		for k, v := range tbl {
 			if k != v {
 				return fmt.Sprintf("intern table maps %q to %q", k, v)
